@@ -117,6 +117,11 @@ func (x *mapRun) around(name, label string, ps []int, f func(int) (int, int, boo
 	})
 }
 
+func (x *mapRun) emptyAndLen() {
+	x.r.try("GO Empty", "Empty", func() string { return fmt.Sprintf("C1 (GO Empty) (%s)", x.out("OBool "+vhlib.Bool(x.m.Empty()))) })
+	x.r.try("GO Keys", "len(Keys)", func() string { return "CKeysLen " + zi(len(x.m.Keys())) })
+}
+
 // battery: every query the property names
 func (x *mapRun) battery(ps []int) {
 	x.gets(ps)
@@ -164,6 +169,7 @@ func mapProfileCase(w *vhlib.Writer, k mapKind, prof string, rng *vhlib.Rng, n, 
 			x.gets([]int{o.k})
 		}
 		x.size()
+		x.emptyAndLen()
 		muts++
 		if (i+1)%every == 0 || i == len(ops)-1 {
 			x.battery(probesFor(rng, x.keysSafe(), probesN))
@@ -226,6 +232,9 @@ func mapExhaustive(w *vhlib.Writer, k mapKind, keyFn func(OMap) string, U int, m
 		}
 	}
 	w.Notes["exhaustive "+k.label] = fmt.Sprintf("universe %d keys: %d distinct states, %d transitions", U, len(seen), trans)
+	if len(seen) >= maxStates {
+		w.Notes["exhaustive "+k.label+" TRUNCATED"] = fmt.Sprintf("state cap %d reached: the implementation reaches more states than a correct tree has shapes", maxStates)
+	}
 	return trans
 }
 
@@ -326,6 +335,8 @@ func setCase(w *vhlib.Writer, safe bool, prof string, rng *vhlib.Rng, n int, mal
 		if len(batchAdd)+len(batchRem) >= 1+rng.Intn(4) {
 			flush()
 			r.try("GS SSize", "Size", func() string { return fmt.Sprintf("C1 (GS SSize) (RS (SOSize %s))", zi(s.Size())) })
+			r.try("GS SEmpty", "Empty", func() string { return fmt.Sprintf("C1 (GS SEmpty) (RS (SOBool %s))", vhlib.Bool(s.Empty())) })
+			r.try("GS SValues", "len(Values)", func() string { return "CKeysLen " + zi(len(s.Values())) })
 		}
 		if (i+1)%every == 0 || i == len(ops)-1 {
 			flush()
@@ -409,6 +420,8 @@ func bidiCase(w *vhlib.Writer, safe bool, prof string, rng *vhlib.Rng, n int, ex
 		}
 		if exhaustivePath == nil {
 			r.try("GB BSize", "Size", func() string { return fmt.Sprintf("C1 (GB BSize) (RB (BOSize %s))", zi(b.Size())) })
+			r.try("GB BEmpty", "Empty", func() string { return fmt.Sprintf("C1 (GB BEmpty) (RB (BOBool %s))", vhlib.Bool(b.Empty())) })
+			r.try("GB BKeys", "len(Keys)", func() string { return "CKeysLen " + zi(len(b.Keys())) })
 		}
 		if (i+1)%every == 0 || i == len(ops)-1 {
 			battery()
@@ -476,9 +489,13 @@ func runC01(o vhlib.Opts) {
 	if thorough {
 		exU = map[string]int{"rb": 7, "avl": 7, "bt3": 8, "bt4": 8, "bt5": 8, "bt6": 8, "bt7": 8, "treemap": 6, "rb-safe": 5, "avl-safe": 5, "bt3-safe": 6, "bt5-safe": 6, "treemap-safe": 5}
 	}
+	maxStates := 300 // a correct tree has at most 72 distinct states over these universes
+	if thorough {
+		maxStates = 3000
+	}
 	for _, k := range kinds {
 		if u, ok := exU[k.label]; ok {
-			mapExhaustive(w, k, contentsOrShapeKey(k), u, 200000)
+			mapExhaustive(w, k, contentsOrShapeKey(k), u, maxStates)
 		}
 	}
 	// 2. profiled random sequences
@@ -542,11 +559,11 @@ func contentsOrShapeKey(k mapKind) func(OMap) string {
 	return func(m OMap) string {
 		switch a := m.(type) {
 		case rbA:
-			return dumpKey(dumpRB(a.t), a.t.Size())
+			return dumpKey(dumpRB(a.t))
 		case avlA:
-			return dumpKey(dumpAVL(a.t), a.t.Size())
+			return dumpKey(dumpAVL(a.t))
 		case btA:
-			return dumpKey(dumpBT(a.t), a.t.Size())
+			return dumpKey(dumpBT(a.t))
 		}
 		return contentsKey(m)
 	}
